@@ -24,8 +24,22 @@ def main():
     for case in data['cases']:
         sub = Submission(files=dict(case['files']), main_file='answer.py')
         contextualize_report(sub)
+        grader = []
+        if case.get('grader_patches'):
+            # the grading script has patches of its own in force around the sandbox calls (its own capture of stdout, a fake
+            # sleep, an extra module): they must be exactly as they were after every execution
+            import io
+            from unittest.mock import patch
+            grader = [patch('sys.stdout', io.StringIO()), patch('time.sleep', lambda *a: None),
+                      patch.dict('sys.modules', {'grader_private_module': json})]
+            for g in grader:
+                g.start()
+        amb_stdout, amb_sleep = sys.stdout, time.sleep
         S.clear_sandbox()
         sb = S.get_sandbox()
+        for name, attrs in case.get('mocks', []):
+            # an instructor set-up: the student's `import <name>` gets this stand-in
+            sb.mock_module(name, dict(attrs))
         if case.get('sections'):
             from pedal.source.sections import separate_into_sections
             separate_into_sections(independent=True)
@@ -40,6 +54,8 @@ def main():
             t0 = time.time()
             try:
                 kw = {'threaded': True} if st.get('threaded') else {}
+                if st.get('inputs') is not None and st['entry'] in ('run', 'runcode', 'call'):
+                    kw['inputs'] = list(st['inputs'])
                 if st.get('nested'):
                     # an instructor helper placed in the student namespace that itself calls into the sandbox
                     sb.data['instructor_helper'] = lambda: S.call(st['nested'])
@@ -81,14 +97,21 @@ def main():
                 'raw_output': sb.raw_output[-200:], 'wall': round(dt, 3),
             })
             # do not let a leak poison the following steps' observations: restore by hand and note it
-            if sys.stdout is not real_stdout or time.sleep is not real_sleep or sb._current_patches or sb._current_stdout:
+            if sys.stdout is not amb_stdout or time.sleep is not amb_sleep or sb._current_patches or sb._current_stdout:
                 steps[-1]['leaked'] = True
                 while sb._current_patches:
                     sb._stop_patches()
                 sb._current_stdout.clear()
-                sys.stdout = real_stdout
-                time.sleep = real_sleep
+                sys.stdout = amb_stdout
+                time.sleep = amb_sleep
             sys.settrace(None)
+        for g in grader:
+            try:
+                g.stop()
+            except Exception:
+                pass
+        sys.stdout, time.sleep = real_stdout, real_sleep
+        sys.modules.pop('grader_private_module', None)
         res.append(steps)
     json.dump(res, open(sys.argv[1], 'w'))
 
